@@ -25,6 +25,9 @@ HARNESSES = [{"name": "main", "src": "harness.cpp", "compiler": _PCXX,
              # breaks mixed int/double code at compile time then still leaves the main variant running
              {"name": "fsrc", "src": "harness.cpp", "compiler": _PCXX,
               "flags": ["-O0", "-DTETL_ENABLE_CONTRACT_CHECKS=1", "-DC12_NPARTS=4", "-DC12_FSRC=1"], "args": ["--nofork"]},
+             # representation types of either signedness and of 8..64 bits (ops u_*): own source file, own variant
+             {"name": "urep", "src": "harness_u.cpp", "compiler": _PCXX,
+              "flags": ["-O0", "-DTETL_ENABLE_CONTRACT_CHECKS=1", "-DC12_NPARTS=4"], "args": ["--nofork"]},
              # thorough only: UBSan in trap mode, one supervised child (a trap = "crash 4"); executes the "ub_*" cases
              # (inputs on which the model says Ub) and re-runs every in-domain case under the sanitizer
              {"name": "ubsan", "src": "harness.cpp", "compiler": _PCXX, "thorough_only": True,
@@ -263,6 +266,291 @@ def float_source_cases(P, rng, quick):
     return out
 
 
+
+# ---- representation types of either signedness and of 8..64 bits (ops u_*, harness_u.cpp) -----------------
+# Python mirror of coq/C12/UModel.v, used ONLY to keep undefined behaviour out of the generated cases (the harness
+# executes the C++; signed overflow in int / long, division by zero).  Values outside the documented domain that
+# merely wrap are generated on purpose (compared with std::chrono and the model; spec leg "na").
+UREPS = [8, 16, 32, 64, -8, -16, -32, -64]
+UPER = [(1, 1000), (1, 1), (60, 1), (1, 3), (5, 7), (1001, 30000)]
+USEL = {(3, 6), (6, 3), (3, 5), (5, 5), (2, 6), (6, 2), (7, 3), (3, 7), (1, 1), (0, 4), (4, 0), (7, 6), (1, 5), (5, 2),
+        (2, 5), (0, 3), (6, 6), (7, 7)}
+
+
+def uenabled(i, j, a, b):
+    """mirror of harness_u.cpp uenabled()"""
+    if (i, j) in ((1, 1), (0, 1)):
+        return True
+    if (i, j) in ((1, 0), (2, 1), (3, 4), (5, 0)):
+        return (a, b) in USEL
+    return False
+
+
+class UBError(Exception):
+    pass
+
+
+def rmin(r):
+    return -(1 << (r - 1)) if r > 0 else 0
+
+
+def rmax(r):
+    return (1 << (r - 1)) - 1 if r > 0 else (1 << -r) - 1
+
+
+def in_r(r, x):
+    return rmin(r) <= x <= rmax(r)
+
+
+def cvt(r, x):
+    m = 1 << abs(r)
+    y = x % m
+    return y - m if (r > 0 and y > rmax(r)) else y
+
+
+def promote(r):
+    return 32 if abs(r) < 32 else r
+
+
+def uac(r1, r2):
+    p1, p2 = promote(r1), promote(r2)
+    if p1 == p2:
+        return p1
+    if p1 > 0 and p2 > 0:
+        return max(p1, p2)
+    if p1 < 0 and p2 < 0:
+        return min(p1, p2)
+    u, sg = min(p1, p2), max(p1, p2)
+    return u if sg <= -u else sg
+
+
+def common_rep(r1, r2):
+    return r1 if r1 == r2 else uac(r1, r2)
+
+
+def cr3(rto, rfrom):
+    return common_rep(common_rep(rto, rfrom), 64)
+
+
+def ar(t, v):
+    if t > 0:
+        if not in_r(t, v):
+            raise UBError()
+        return v
+    return cvt(t, v)
+
+
+def binop(op, ra, rb, x, y):
+    t = uac(ra, rb)
+    x, y = cvt(t, x), cvt(t, y)
+    if op == '+':
+        return ar(t, x + y)
+    if op == '-':
+        return ar(t, x - y)
+    if op == '*':
+        return ar(t, x * y)
+    if y == 0 or (t > 0 and x == rmin(t) and y == -1):
+        raise UBError()
+    return tquot(x, y) if op == '/' else trem(x, y)
+
+
+class UDur:
+    def __init__(self, r, n, d):
+        g = gcd(n, d)
+        self.r, self.n, self.d = r, n // g, d // g
+
+    def same(self, o):
+        return (self.r, self.n, self.d) == (o.r, o.n, o.d)
+
+
+def ucommon(a, b):
+    return UDur(common_rep(a.r, b.r), gcd(a.n, b.n), a.d // gcd(a.d, b.d) * b.d)
+
+
+def ufactor(a, b):
+    A, B = a.n * b.d, a.d * b.n
+    g = gcd(A, B)
+    return A // g, B // g
+
+
+def uconv(a, t, c):
+    """converting constructor a -> t (the factor is a whole number here)"""
+    if a.same(t):
+        return c
+    cn, cd = ufactor(a, t)
+    assert cd == 1
+    cr = cr3(t.r, a.r)
+    p = binop('*', cr, 64, cvt(cr, c), cn)
+    q = binop('/', uac(cr, 64), 64, p, cd)
+    return cvt(t.r, q)
+
+
+def ucast(a, t, c):
+    cn, cd = ufactor(a, t)
+    cr = cr3(t.r, a.r)
+    x = cvt(cr, c)
+    if cn == 1 and cd == 1:
+        v = c
+    elif cn == 1:
+        v = binop('/', cr, cr, x, cvt(cr, cd))
+    elif cd == 1:
+        v = binop('*', cr, cr, x, cvt(cr, cn))
+    else:
+        v = binop('/', cr, cr, binop('*', cr, cr, x, cvt(cr, cn)), cvt(cr, cd))
+    return cvt(t.r, v)
+
+
+def ubin(op, a, b, c1, c2):
+    """a op b for + - / % < ==; raises UBError where the C++ has undefined behaviour"""
+    t = ucommon(a, b)
+    x, y = uconv(a, t, c1), uconv(b, t, c2)
+    if op in ('<', '=='):
+        tt = uac(t.r, t.r)
+        return cvt(tt, x) < cvt(tt, y) if op == '<' else cvt(tt, x) == cvt(tt, y)
+    return cvt(t.r, binop(op, t.r, t.r, x, y))
+
+
+def ufloor(a, t, c):
+    v = ucast(a, t, c)
+    if ubin('<', a, t, c, v):
+        return cvt(t.r, binop('-', t.r, t.r, v, 1))
+    return v
+
+
+def uceil(a, t, c):
+    v = ucast(a, t, c)
+    if ubin('<', t, a, v, c):
+        return cvt(t.r, binop('+', t.r, t.r, v, 1))
+    return v
+
+
+def uround(a, t, c):
+    low = ufloor(a, t, c)
+    high = ubin('+', t, t, low, 1)
+    lo = ubin('-', a, t, c, low)
+    hi = ubin('-', t, a, high, c)
+    cd = ucommon(a, t)
+    if ubin('<', cd, cd, lo, hi):
+        return low
+    if ubin('<', cd, cd, hi, lo):
+        return high
+    return high if low % 2 == 1 else low
+
+
+def no_ub(fn, *args):
+    try:
+        fn(*args)
+        return True
+    except UBError:
+        return False
+
+
+UVALS = [0, 1, 2, 3, 5, 7, 59, 60, 61, 100, 127, 128, 129, 200, 255, 256, 999, 1000, 1500, 2500, 3500, 30000, 32767,
+         32768, 46341, 65535, 65536, 86400, (1 << 31) - 1, 1 << 31, (1 << 32) - 1, 1 << 32, 3037000500, (1 << 63) - 1,
+         1 << 63, (1 << 64) - 1]
+
+
+def uvalues(r, rng, k):
+    """counts of the type r: small ones, the limits of every narrower type, the type's own limits, a few random"""
+    pool = [v for v in UVALS if in_r(r, v)] + [-v for v in UVALS if v and in_r(r, -v)]
+    pool += [rmax(r), rmax(r) - 1, rmin(r), rmin(r) + 1, rmax(r) // 2, rmax(r) // 1000]
+    pool = sorted(set(v for v in pool if in_r(r, v)))
+    pick = set(rng.sample(pool, min(k, len(pool))))
+    pick.update((0, 1, rmax(r), rmin(r), 5, rng.randint(rmin(r), rmax(r)), rng.randint(max(rmin(r), -3000), min(rmax(r), 3000))))
+    return sorted(v for v in pick if in_r(r, v))
+
+
+def gen_urep(tier, rng):
+    out = []
+    quick = tier == "quick"
+    for i in range(len(UPER)):
+        for j in range(len(UPER)):
+            for a in range(8):
+                for b in range(8):
+                    if not uenabled(i, j, a, b):
+                        continue
+                    r1, r2 = UREPS[a], UREPS[b]
+                    (N1, D1), (N2, D2) = UPER[i], UPER[j]
+                    A, B = UDur(r1, N1, D1), UDur(r2, N2, D2)
+                    head = f"{i} {j} {a * 8 + b} {N1} {D1} {r1} {N2} {D2} {r2}"
+                    h = lambda op: f"{op} {head}"
+                    out.append(h("u_ctype"))
+                    out.append(h("u_limits"))
+                    k = 5 if quick else 14
+                    v1, v2 = uvalues(r1, rng, k), uvalues(r2, rng, k)
+                    pairs = {(x, y) for x in v1 for y in v2}
+                    # equal values and neighbours
+                    cn, cd = ufactor(A, B)
+                    for t in (0, 1, 2, 17, -1, -3, rng.randint(-100, 100)):
+                        for e1 in (-1, 0, 1):
+                            for e2 in (-1, 0, 1):
+                                pairs.add((t * cd + e1, t * cn + e2))
+                    pairs = sorted(p for p in pairs if in_r(r1, p[0]) and in_r(r2, p[1]))
+                    if quick and len(pairs) > 22:
+                        pairs = rng.sample(pairs, 22)
+                    for (c1, c2) in pairs:
+                        if no_ub(ubin, '+', A, B, c1, c2):
+                            out.append(f"{h('u_plus')} {c1} {c2}")
+                        if no_ub(ubin, '-', A, B, c1, c2):
+                            out.append(f"{h('u_minus')} {c1} {c2}")
+                        if no_ub(ubin, '/', A, B, c1, c2):
+                            out.append(f"{h('u_div')} {c1} {c2}")
+                            out.append(f"{h('u_mod')} {c1} {c2}")
+                        if no_ub(ubin, '<', A, B, c1, c2) and no_ub(ubin, '<', B, A, c2, c1):
+                            out.append(f"{h('u_cmp')} {c1} {c2}")
+                    # duration<r1, P1> op scalar of type r2
+                    if i == j or (a, b) in USEL:
+                        S = UDur(common_rep(r1, r2), N1, D1)
+                        for c in (rng.sample(v1, min(5, len(v1))) if quick else v1):
+                            for x in (rng.sample(v2, min(5, len(v2))) if quick else v2):
+                                if x == 0:
+                                    continue
+
+                                def sc(c=c, x=x):
+                                    y = uconv(A, S, c)
+                                    binop('*', S.r, r2, y, x)
+                                    binop('/', S.r, r2, y, x)
+                                if no_ub(sc):
+                                    out.append(f"{h('u_scalar')} {c} {x}")
+                    # conversions of one count
+                    integral = cd == 1
+                    for c in uvalues(r1, rng, 3 if quick else 30) + [t * cd + e for t in ((1, -2) if quick else (1, 2, 3, -1, -2)) for e in (-1, 0, 1)] \
+                            + [(2 * t + 1) * cd // 2 + e for t in ((0, 1, -2) if quick else (0, 1, 2, -1, -2)) for e in (-1, 0, 1)]:
+                        if not in_r(r1, c):
+                            continue
+                        if not integral or no_ub(uconv, A, B, c):
+                            out.append(f"{h('u_conv')} {c}")
+                        if no_ub(ucast, A, B, c) and no_ub(ufloor, A, B, c) and no_ub(uceil, A, B, c) and no_ub(uround, A, B, c):
+                            out.append(f"{h('u_rnd4')} {c}")
+                        elif no_ub(ucast, A, B, c):
+                            out.append(f"{h('u_cast')} {c}")
+                    # one type: member operators, abs
+                    if i == j and a == b:
+                        r = r1
+                        for c in uvalues(r, rng, 12 if quick else 40):
+                            ok = True
+                            try:
+                                binop('+', r, 32, c, 1)
+                                binop('-', r, 32, c, 1)
+                                ar(promote(r), -cvt(promote(r), c))
+                            except UBError:
+                                ok = False
+                            if ok:
+                                out.append(f"{h('u_unary')} {c}")
+                            if r < 0 or no_ub(ubin, '-', A, A, 0, c):
+                                out.append(f"{h('u_abs')} {c}")
+                            for x in uvalues(r, rng, 4 if quick else 10):
+                                if x == 0:
+                                    continue
+                                try:
+                                    for o in '+-*/':
+                                        binop(o, r, r, c, x)
+                                    out.append(f"{h('u_compound')} {c} {x}")
+                                except UBError:
+                                    pass
+    return out
+
+
 SMALL = [0, 1, -1, 2, -2, 3, -3, 7, -7, 59, 60, -60, 61, 999, 1000, -1000, 1001, -1999, 2000, 30000, -30000, 86399]
 
 
@@ -274,6 +562,7 @@ def gen(tier, rng):
     out.append(f"typedef_bits {z}")
     out.append(f"sratio {z}")
     out.append(f"constraints {z}")
+    out.extend(gen_urep(tier, rng))
     sweep = range(-2000, 2001)
     for i in range(NP):
         for j in range(NP):
